@@ -81,7 +81,7 @@ func detToSX(d *errorspb.EncodedErrorDetails) (SX, []SX) {
 	if maskBarrierDetails {
 		rep = make([]string, len(d.ReportablePayload))
 		for i, s := range d.ReportablePayload {
-			rep[i] = maskVF(s)
+			rep[i] = strings.ReplaceAll(maskVF(s), unkSuffix, "")
 		}
 	}
 	return L(Sym("D"), Str(d.OriginalTypeName), Str(fam), Str(d.ErrorTypeMark.Extension), Strs(rep), pay), hid
